@@ -312,6 +312,22 @@ func runTopo(e *Env) {
 		st.compare("after boot")
 	}
 
+	// the goroutine that refreshes the ring is slow to get going (descheduled right before
+	// it starts a refresh): whatever else was started by the reconnect finishes first
+	holdRefresher := func() {
+		if e.NoFaults || !tp.Chance(1, 3) {
+			return
+		}
+		k.Fault("topo.ring-refresher-held-before-refresh")
+		k.ArmNext("rd.beforeRefresh")
+		k.SettleUntil(5*time.Second, 20*time.Millisecond, pump, func() bool { return len(k.ParkedKeys()) > 0 })
+		if len(k.ParkedKeys()) > 0 {
+			k.Probe("ring-refresher-held")
+			k.SettleUntil(500*time.Millisecond, 20*time.Millisecond, pump, func() bool { return false })
+		}
+		k.Disarm("rd.beforeRefresh")
+		k.ResumeAll()
+	}
 	nSteps := 3 + tp.Next(8)
 	if e.NoFaults {
 		nSteps = 3
@@ -626,6 +642,7 @@ func runTopo(e *Env) {
 					}
 				}
 			}
+			holdRefresher()
 		case 12: // the control connection is lost and the cluster changes before anybody
 			// listens for events again: only the refresh after reconnecting can tell
 			k.Rec("step control-loss with a silent change")
@@ -649,6 +666,7 @@ func runTopo(e *Env) {
 				k.Rec("  silent join %s %s", h.Addr, h.HostID)
 				st.eventFor("TOPOLOGY_CHANGE", "NEW_NODE", h)
 			}
+			holdRefresher()
 		case 13: // a second node joins while the refresh caused by the first is in flight:
 			// its answer was computed before the second node existed
 			h1 := st.newHost()
